@@ -9,7 +9,11 @@ Emit == PrintT("@@CASE " \o ToJson([choice |-> c, schema |-> Valid(c),
                                     order |-> [i \in 1..Len(Valid(c).ents) |-> AttrOrder(Valid(c), Valid(c).ents[i].name)],
                                     files |-> Files(Valid(c)),
                                     pymodule |-> PyModule(Valid(c)),
-                                    pydiamond |-> {Valid(c).ents[i].name : i \in {j \in 1..Len(Valid(c).ents) : Dev_PyCtorRepeatsSharedAncestor(Valid(c), Valid(c).ents[j].name)}},
+                                    \* (the deviation predicts the exact parameter list: every supertype path in turn, shared ancestors repeated)
+                                    pydiamond |-> {[name |-> PyName(Valid(c).ents[i].name),
+                                                    params |-> [j \in 1..Len(RawOrder(Valid(c), Valid(c).ents[i].name)) |-> PyName(RawOrder(Valid(c), Valid(c).ents[i].name)[j].name)]] :
+                                                   i \in {j \in 1..Len(Valid(c).ents) : Dev_PyCtorRepeatsSharedAncestor(Valid(c), Valid(c).ents[j].name)}},
+                                    pykeywords |-> Dev_PyKeywordUnescaped(Valid(c)),
                                     dict |-> Dictionary(Valid(c)),
                                     devtypes |-> {[name |-> Valid(c).types[i].name,
                                                    dev |-> "Dev_NestedAggrNotRegistered"] :
